@@ -237,3 +237,100 @@ func foldInt(t *Term) (int64, bool) {
 	}
 	return 0, false
 }
+
+// decideCond evaluates a normalised condition under what is known on a path:
+// the path's own conditions, extra assumptions, and constant folding.
+func decideCond(c Fact, known factSet) (truth bool, ok bool) {
+	if v, has := known[Fact{c.Pred, true}.String()]; has && v.Val {
+		return c.Val, true
+	}
+	if _, has := known[Fact{c.Pred, false}.String()]; has {
+		return !c.Val, true
+	}
+	t := c.Pred
+	switch {
+	case t.Op == "const" && (t.S == "true" || t.S == "false"):
+		return (t.S == "true") == c.Val, true
+	case t.Op == "binop" && len(t.Args) == 2:
+		a, b := t.Args[0], t.Args[1]
+		if x, okx := foldInt(a); okx {
+			if y, oky := foldInt(b); oky {
+				switch t.S {
+				case "==":
+					return (x == y) == c.Val, true
+				case "<":
+					return (x < y) == c.Val, true
+				case "<=":
+					return (x <= y) == c.Val, true
+				}
+			}
+		}
+		if t.S == "==" && a.Op == "const" && b.Op == "const" {
+			return (a.S == b.S) == c.Val, true
+		}
+	}
+	return false, false
+}
+
+// evalCalls rewrites calls of in-package, non-recursive single-result
+// functions inside t by their result on the callee paths that are consistent
+// with what is known (path conditions + assume); when exactly one result
+// remains the call disappears from the term.
+func (P *Prog) evalCalls(p *Path, t *Term, assume factSet, depth int) *Term {
+	if depth > 3 {
+		return t
+	}
+	known := factSet{}
+	if p != nil {
+		for _, c := range p.conds {
+			known.add(c)
+		}
+	}
+	for _, f := range assume {
+		known.add(f)
+	}
+	return t.rewrite(func(u *Term) *Term {
+		if u.Op != "call" {
+			return nil
+		}
+		fn := P.calleeOfTerm(u)
+		if fn == nil || fn.Signature.Results().Len() != 1 {
+			return nil
+		}
+		m := map[string]*Term{}
+		for i, a := range u.Args {
+			m[itoa(int64(i))] = a
+		}
+		uniq := map[string]*Term{}
+		for _, cp := range P.allPaths(fn) {
+			if !cp.feasible() {
+				continue
+			}
+			consistent := true
+			for _, c := range cp.conds {
+				sc := Fact{normCond(c.Pred.subst(m)), c.Val}
+				// re-normalise negations that substitution may expose
+				sc = normFact(sc.Pred, sc.Val)
+				if truth, ok := decideCond(sc, known); ok && !truth {
+					consistent = false
+					break
+				}
+			}
+			if !consistent {
+				continue
+			}
+			res := cp.results()[0].subst(m)
+			if res.contains(func(w *Term) bool { return w.Op == "call" && w.S == u.S }) {
+				return nil // recursive
+			}
+			res = P.evalCalls(p, res, assume, depth+1)
+			uniq[res.String()] = res
+		}
+		if len(uniq) == 1 {
+			for _, r := range uniq {
+				return r
+			}
+		}
+		return nil
+	})
+}
